@@ -262,7 +262,7 @@ def finish(pid, violations, known_hits):
 # ----------------------------------------------------------------------------- generic S+B check
 def trace_family_check(pid, tier, tmp, replay, *, variant, driver, driver_args, trace_module, trace_cfg,
                        mc_module, mc_cfg, assume, sample_re, wit=None, extra_cov=None, mc_workers=12,
-                       reset_key='SReset', driver_timeout=1200, known_filter=None, post=None):
+                       reset_key='SReset', driver_timeout=1200, known_filter=None, post=None, extra_runs=()):
     """Stage S (TLC on mc_module/mc_cfg, optional one-worker witness run) in parallel with stage B
     (driver -> trace -> validation against trace_module).  Writes evidence and exits per contract."""
     import threading
@@ -303,6 +303,17 @@ def trace_family_check(pid, tier, tmp, replay, *, variant, driver, driver_args, 
         for t in ths:
             t.join()
         raise Infra('%s exited with %s: %s' % (driver, rc, open(errlog, errors='replace').read()[-1500:]))
+    # further runs of the same driver in other build variants; their executions are appended to the trace
+    for i, (xvariant, xargs) in enumerate(() if replay else extra_runs):
+        build(xvariant, [driver])
+        xtrace = os.path.join(tmp, '%s.%d.ndjson' % (driver, i))
+        xrc, xerr = run_driver(xvariant, driver, [xtrace] + list(xargs), tmp, timeout=driver_timeout)
+        if xrc != 0:
+            for t in ths:
+                t.join()
+            raise Infra('%s (%s) exited with %s: %s' % (driver, xvariant, xrc, open(xerr, errors='replace').read()[-1500:]))
+        with open(trace, 'a') as f:
+            f.write(open(xtrace).read())
     val = validate_trace(trace_module, trace_cfg, trace, tmp, timeout=1500)
     for t in ths:
         t.join()
